@@ -14,6 +14,8 @@ parser and poll handling, the slave's response (data, "no data" as fixed frame o
 transceiver, parser (`parseBP`) and `HandleMessage` put together: `slave_to_master_exactly_once_fifo_per_class`
 (`polls_spec`, `serve_fifo`), `poll_retransmissions_identical`, and `single_slave_primary_run` (the model's own
 `PriU.run` with one slave is the reception used in the theorems followed by the slave's state machine).
+Link establishment (section "establish"): `reset_establishes_sync` - RESET REMOTE LINK and its acknowledgement put both
+ends at frame count bit 1 from arbitrary previous bits (`establish_spec`), `reset_then_transfers`.
 NOT composed in Lean (partial): several slaves on one line, balanced mode, enqueues interleaved with polls, behaviour
 at and after the repeat timeout beyond C15 `priU_gives_up`; those are explored on the real stacks by harness/e2e101.c.
 -/
@@ -199,5 +201,38 @@ example : udOf (demoSys2.polls demoPolls).2.1 = [[7, 7], [1], [8]] := by decide
 example : (demoSys2.polls demoPolls).1.s.c2 = [] ∧ (demoSys2.polls demoPolls).1.s.c1 = [] := by decide
 
 end Polls
+
+/-! ### link establishment, then traffic -/
+section Establish
+open Iec.Link101
+
+/-- **after an acknowledged link reset the first frame with the frame-count-valid bit carries frame count bit 1 on both
+ends, whatever the two stations held before** (composed: master state machine, encoder, slave parser and reset handling,
+the slave's acknowledgement through the master's parser): the procedure ends in the synchronised state from which
+`master_to_slave_exactly_once_in_order` and `slave_to_master_exactly_once_fifo_per_class` start; the slave's queues are
+untouched -/
+theorem reset_establishes_sync (y : Sys) (t0 tS tA : Nat) (hy : PreSync y) :
+    Sync (y.establish t0 tS tA).1 ∧ (y.establish t0 tS tA).1.c.nextFcb = true ∧
+    (y.establish t0 tS tA).1.s.expectedFcb = true ∧
+    (y.establish t0 tS tA).1.s.c1 = y.s.c1 ∧ (y.establish t0 tS tA).1.s.c2 = y.s.c2 :=
+  establish_spec y t0 tS tA hy
+
+/-- establishment followed by any transfers: everything is delivered exactly once in order, from arbitrary initial bits -/
+theorem reset_then_transfers (y : Sys) (t0 tS tA : Nat) (hy : PreSync y) (ks : List Transfer)
+    (hk : ∀ k ∈ ks, k.d ≠ [] ∧ 1 + (y.establish t0 tS tA).1.lm.p.addrLen + k.d.length ≤ 255 ∧
+      ∀ t ∈ k.waits, ¬ t > k.t0 + (y.establish t0 tS tA).1.lm.p.tRepeat) :
+    rxOf ((y.establish t0 tS tA).1.transfers ks).2.1 = ks.map (·.d) :=
+  (master_to_slave_exactly_once_in_order _ ks (establish_spec y t0 tS tA hy).1 hk).1
+
+/-- not vacuous (a test): both stations start with the "wrong" bit 0; after the reset procedure a transfer is delivered -/
+def demoPre : Sys :=
+  { c := { address := 5, pstate := 1, nextFcb := false }, lm := { p := demoP, address := 0 },
+    s := { ll := { p := demoP, address := 5 }, expectedFcb := false } }
+example : PreSync demoPre := ⟨rfl, rfl, rfl, rfl, rfl, rfl, Or.inr (Or.inl ⟨rfl, by decide⟩), ⟨by decide, by decide⟩⟩
+example : (demoPre.establish 100 110 120).2 = [[0x10, 0x40, 5, 0x45, 0x16]] := by decide
+example : rxOf (((demoPre.establish 100 110 120).1.transfers
+    [{ d := [9, 9], t0 := 1000, waits := [], t := 1010, ts := [], tAck := 1020 }]).2.1) = [[9, 9]] := by decide
+
+end Establish
 
 end Iec.Props.C16
